@@ -87,7 +87,8 @@ PROPS = {
         "theorems": ["DL.C07_aliases", "DL.C07_charge_conjugates", "DL.C07_decays2copy", "DL.C07_definitions", "DL.C07_model_aliases",
                      "DL.C07_alias_complete", "DL.C07_photos_absent", "DL.C07_photos_last", "DL.C07_cdecays", "DL.C07_lineshape_pw",
                      "DL.C07_lineshape_repeat", "DL.C07_lsdef_repeat", "DL.C07_lineshape_new", "DL.C07_position_free",
-                     "DL.C07_width_given", "DL.C07_width_default", "DL.C07_width_unknown", "DL.dget_pairsToDict"],
+                     "DL.C07_width_given", "DL.C07_width_default", "DL.C07_width_unknown", "DL.dget_pairsToDict",
+                     "DL.C07_jetset_int", "DL.C07_jetset_float", "DL.C07_pythia_num", "DL.C07_pythia_word"],
         "partial": ["Pythia / JetSet value typing is carried by the correspondence; reference widths come from the installed particle table "
                     "through the harness (exact value of the float, divided by 1000 in the model)"],
         "assumptions": [],
@@ -169,7 +170,8 @@ PROPS = {
     },
     "C19": {
         "harness": "c19",
-        "theorems": ["DL.C19_sinks", "DL.C19_returned_is_printed", "DL.runSinks_all_printer", "DL.C19_coeff_names", "DL.C19_distinct"],
+        "theorems": ["DL.C19_sinks", "DL.C19_returned_is_printed", "DL.runSinks_all_printer", "DL.C19_coeff_names", "DL.C19_distinct",
+                     "DL.C19_declared", "DL.expandLines_nodes"],
         "partial": ["'the two outputs contain the same declarations' and 'every symbol is declared before use' are decided by parsing both "
                     "real outputs back (harness); the Lean side proves the clauses that are static in the source: all output calls go through "
                     "`printer`, and the coefficient-name suffixes of both emitters",
